@@ -256,6 +256,8 @@ pub fn features() -> Vec<(&'static str, Vec<Item>)> {
                 Item::Defset { ty: list(class_a()), name: "set1".into(), body: vec![def("s1", vec![a_of(vec![int(1)])], None), def("s2", vec![a_of(vec![int(2)])], None)] },
                 Item::Defvar { name: "n".into(), value: bang("!size", vec![id("set1")]) },
                 def("usesn", vec![], Some(vec![f(Ty::Int, "count", id("n")), f(list(class_a()), "members", id("set1"))])),
+                // the members are values of their own, by name
+                def("usess", vec![], Some(vec![f(class_a(), "first", id("s1")), f(list(class_a()), "both", E::List(vec![id("s1"), id("s2")])), f(Ty::Int, "viaf", E::Field(Box::new(id("s2")), "f".into()))])),
             ],
         ),
         ("let-group", vec![Item::Let { binds: vec![("f".into(), int(9)), ("g".into(), s("l"))], body: vec![def("l1", vec![a_of(vec![int(1)])], None), def("l2", vec![a_of(vec![int(2)])], None)], braces: true }]),
